@@ -49,6 +49,8 @@ for sid in ids:
         for c in checks:
             rc, out = sh(['./check', c], cwd='/verif', extra={'VERIF_REPO': wt})
             lines = out.strip().split('\n')
+            if rc == 2 or not lines[-1].startswith('check '):   # tooling failure, not a verdict
+                print('%s check=%s: TOOLING ERROR %s' % (sid, c, out[-300:]), flush=True); continue
             v = {'caught': rc != 0, 'violations': sum(1 for l in lines if l.startswith('VIOLATION')),
                  'without_failing_input': sum(1 for l in lines if 'no-failing-input-found' in l), 'summary': lines[-1][:300],
                  'first_violation': next((l for l in lines if l.startswith('VIOLATION')), None)}
